@@ -57,6 +57,9 @@ type Proxy struct {
 	AfterCommit  func()
 	ReadTxs      atomic.Int64
 	WriteTxs     atomic.Int64
+	// OpHook, if set, is called before every bucket operation (a storage access is a point at which
+	// a goroutine may be descheduled for any length of time; checks use it for seeded pauses)
+	OpHook func(bucket, kind string, key []byte)
 }
 
 func Wrap(inner diskstore.DiskStore) *Proxy { return &Proxy{inner: inner} }
@@ -184,6 +187,9 @@ func keyClass(k []byte) string {
 
 // step accounts one operation and decides whether it must fail / kill.
 func (p *Proxy) step(bucket, kind string, key []byte, failable bool) error {
+	if h := p.OpHook; h != nil {
+		h(bucket, kind, key)
+	}
 	mode, k := p.current()
 	n := p.ops.Add(1)
 	var fn, cn int64
